@@ -6,7 +6,10 @@
 //!   together with a log of every draw that was made;
 //! - access to the private categorical sampler for a given uniform variate;
 //! - a solve entry point with an explicit task target for the multi-threaded solvers;
-//! - a textual dump of the compact game representation.
+//! - a textual dump of the compact game representation;
+//! - [sync::Mutex], a drop-in wrapper around `std::sync::Mutex` that the multi-threaded solvers use
+//!   when the feature is on: it logs every `lock`, `try_lock` (successful or not) and guard drop
+//!   with the calling thread, so that the lock discipline of a run can be observed.
 use crate::solve::{external, vanilla};
 use crate::{Game, Node, RegretBound, RegretParams, SolveError, SolveMethod, Strategies};
 use std::fmt::{Display, Write};
@@ -222,5 +225,206 @@ impl<I: Display, A: Display> Game<I, A> {
         out.push_str(" N");
         dump_node(&self.root, &mut out);
         out
+    }
+}
+
+/// Observation of the mutexes of the multi-threaded solvers
+pub mod sync {
+    use std::fmt;
+    use std::ops::{Deref, DerefMut};
+    use std::sync::atomic::{AtomicBool, AtomicUsize, Ordering};
+    use std::sync::{LockResult, PoisonError, TryLockError, TryLockResult};
+
+    /// `lock()` was called (logged before the call, which may wait)
+    pub const OP_LOCK: u8 = 0;
+    /// `try_lock()` succeeded
+    pub const OP_TRY: u8 = 1;
+    /// `try_lock()` found the mutex held
+    pub const OP_TRY_FAIL: u8 = 2;
+    /// a guard was dropped
+    pub const OP_UNLOCK: u8 = 3;
+    /// start of a pass / iteration of a multi-threaded solver
+    pub const OP_PHASE: u8 = 4;
+
+    /// label of a mutex that was not labelled
+    pub const NO_LABEL: usize = usize::MAX;
+
+    /// One mutex operation
+    #[derive(Debug, Clone, PartialEq)]
+    pub struct LockRecord {
+        /// a number identifying the calling thread
+        pub thread: u64,
+        /// one of the `OP_` constants
+        pub op: u8,
+        /// serial number of the mutex (creation order since the last [reset])
+        pub serial: usize,
+        /// kind given by [label] ([super::KIND_CHANCE], [super::KIND_ONE], [super::KIND_TWO]) or `u8::MAX`
+        pub kind: u8,
+        /// index given by [label] or [NO_LABEL]
+        pub index: usize,
+    }
+
+    static OBSERVE: AtomicBool = AtomicBool::new(false);
+    static NEXT: AtomicUsize = AtomicUsize::new(0);
+    static LOG: std::sync::Mutex<Vec<LockRecord>> = std::sync::Mutex::new(Vec::new());
+
+    /// Switch the log of mutex operations on or off
+    pub fn set_observe(on: bool) {
+        OBSERVE.store(on, Ordering::SeqCst);
+    }
+
+    /// Restart the serial numbers and empty the log
+    pub fn reset() {
+        NEXT.store(0, Ordering::SeqCst);
+        LOG.lock().unwrap().clear();
+    }
+
+    /// Take the log of mutex operations made since the last call
+    pub fn take_log() -> Vec<LockRecord> {
+        std::mem::take(&mut *LOG.lock().unwrap())
+    }
+
+    fn thread_number() -> u64 {
+        use std::hash::{Hash, Hasher};
+        let mut hasher = std::collections::hash_map::DefaultHasher::new();
+        std::thread::current().id().hash(&mut hasher);
+        hasher.finish()
+    }
+
+    fn log(op: u8, serial: usize, kind: u8, index: usize) {
+        if OBSERVE.load(Ordering::SeqCst) {
+            LOG.lock().unwrap().push(LockRecord {
+                thread: thread_number(),
+                op,
+                serial,
+                kind,
+                index,
+            });
+        }
+    }
+
+    /// Mark the start of a pass
+    pub(crate) fn phase() {
+        log(OP_PHASE, NO_LABEL, u8::MAX, NO_LABEL);
+    }
+
+    /// Name the mutexes of a table: `table[i]` is the infoset `i` of `kind`
+    pub(crate) fn label<T>(table: &[Mutex<T>], kind: u8) {
+        for (index, mutex) in table.iter().enumerate() {
+            mutex.kind.store(kind as usize, Ordering::SeqCst);
+            mutex.index.store(index, Ordering::SeqCst);
+        }
+    }
+
+    /// `std::sync::Mutex` with a log
+    pub struct Mutex<T> {
+        inner: std::sync::Mutex<T>,
+        serial: usize,
+        kind: AtomicUsize,
+        index: AtomicUsize,
+    }
+
+    /// guard of [Mutex]
+    pub struct MutexGuard<'a, T> {
+        inner: std::sync::MutexGuard<'a, T>,
+        serial: usize,
+        kind: u8,
+        index: usize,
+    }
+
+    impl<T> Mutex<T> {
+        /// see `std::sync::Mutex::new`
+        pub fn new(value: T) -> Self {
+            Mutex {
+                inner: std::sync::Mutex::new(value),
+                serial: NEXT.fetch_add(1, Ordering::SeqCst),
+                kind: AtomicUsize::new(u8::MAX as usize),
+                index: AtomicUsize::new(NO_LABEL),
+            }
+        }
+
+        fn names(&self) -> (u8, usize) {
+            (
+                self.kind.load(Ordering::SeqCst) as u8,
+                self.index.load(Ordering::SeqCst),
+            )
+        }
+
+        fn guard<'a>(&self, inner: std::sync::MutexGuard<'a, T>) -> MutexGuard<'a, T> {
+            let (kind, index) = self.names();
+            MutexGuard {
+                inner,
+                serial: self.serial,
+                kind,
+                index,
+            }
+        }
+
+        /// see `std::sync::Mutex::lock`
+        pub fn lock(&self) -> LockResult<MutexGuard<'_, T>> {
+            let (kind, index) = self.names();
+            log(OP_LOCK, self.serial, kind, index);
+            match self.inner.lock() {
+                Ok(inner) => Ok(self.guard(inner)),
+                Err(poison) => Err(PoisonError::new(self.guard(poison.into_inner()))),
+            }
+        }
+
+        /// see `std::sync::Mutex::try_lock`
+        pub fn try_lock(&self) -> TryLockResult<MutexGuard<'_, T>> {
+            let (kind, index) = self.names();
+            match self.inner.try_lock() {
+                Ok(inner) => {
+                    log(OP_TRY, self.serial, kind, index);
+                    Ok(self.guard(inner))
+                }
+                Err(TryLockError::WouldBlock) => {
+                    log(OP_TRY_FAIL, self.serial, kind, index);
+                    Err(TryLockError::WouldBlock)
+                }
+                Err(TryLockError::Poisoned(poison)) => {
+                    log(OP_TRY, self.serial, kind, index);
+                    Err(TryLockError::Poisoned(PoisonError::new(
+                        self.guard(poison.into_inner()),
+                    )))
+                }
+            }
+        }
+
+        /// see `std::sync::Mutex::get_mut`
+        pub fn get_mut(&mut self) -> LockResult<&mut T> {
+            self.inner.get_mut()
+        }
+
+        /// see `std::sync::Mutex::into_inner`
+        pub fn into_inner(self) -> LockResult<T> {
+            self.inner.into_inner()
+        }
+    }
+
+    impl<T: fmt::Debug> fmt::Debug for Mutex<T> {
+        fn fmt(&self, f: &mut fmt::Formatter<'_>) -> fmt::Result {
+            self.inner.fmt(f)
+        }
+    }
+
+    impl<T> Deref for MutexGuard<'_, T> {
+        type Target = T;
+        fn deref(&self) -> &T {
+            &self.inner
+        }
+    }
+
+    impl<T> DerefMut for MutexGuard<'_, T> {
+        fn deref_mut(&mut self) -> &mut T {
+            &mut self.inner
+        }
+    }
+
+    impl<T> Drop for MutexGuard<'_, T> {
+        fn drop(&mut self) {
+            // logged just before the inner guard is released (fields drop after this body)
+            log(OP_UNLOCK, self.serial, self.kind, self.index);
+        }
     }
 }
